@@ -321,9 +321,9 @@ impl Property for StoreProp {
                 ops.push(Op::S(SOp::ObserveAll));
                 for _ in 0..rng.range(1, 3) {
                     match rng.below(4) {
-                        0 => ops.push(Op::S(SOp::DropDerived { latest: true, by_key: false, v1: rng.chance(1, 3) })),
-                        1 => ops.push(Op::S(SOp::DropDerived { latest: false, by_key: true, v1: rng.chance(1, 3) })),
-                        2 => ops.push(Op::S(SOp::DropDerived { latest: true, by_key: true, v1: rng.chance(1, 3) })),
+                        0 => ops.push(Op::S(SOp::DropDerived { latest: true, by_key: false, v1: rng.chance(1, 3), truncate: rng.chance(1, 3) })),
+                        1 => ops.push(Op::S(SOp::DropDerived { latest: false, by_key: true, v1: rng.chance(1, 3), truncate: rng.chance(1, 3) })),
+                        2 => ops.push(Op::S(SOp::DropDerived { latest: true, by_key: true, v1: rng.chance(1, 3), truncate: rng.chance(1, 3) })),
                         _ => ops.push(Op::S(SOp::Reopen)),
                     }
                     ops.push(Op::S(SOp::ObserveAll));
